@@ -36,7 +36,7 @@ ASSUMPTIONS = [
     "other; tightness is 1e-7 * scale, so a sub-threshold cubic term at ordinary scale cannot move an extremum by more",
 ]
 TOLERANCES = {"containment": "1e-9 * S", "tightness": "1e-7 * S", "arc": "+ 1e-15 * (ratio*cond)^2 * S"}
-MANDATORY_LABELS = {"quick": ["seg:Q", "seg:C", "seg:A", "seg:L", "extrema:0", "extrema:1", "extrema:2", "cubic:near-linear", "arc:beyond-full-turn", "arc:tiny", "path", "subpath", "stroke:transformed", "stroke:untransformed", "shape:rrect", "shape:circle", "group", "group:nested", "group:empty", "use", "use:chained", "history:created-empty-then-sized", "stroke:non-scaling"]}
+MANDATORY_LABELS = {"quick": ["seg:Q", "seg:C", "seg:A", "seg:L", "extrema:0", "extrema:1", "extrema:2", "cubic:near-linear", "arc:beyond-full-turn", "arc:tiny", "path", "subpath", "stroke:transformed", "stroke:untransformed", "shape:rrect", "shape:circle", "group", "group:nested", "group:empty", "use", "use:chained", "history:created-empty-then-sized", "stroke:non-scaling", "group:with-empty-member"]}
 MANDATORY_LABELS["thorough"] = MANDATORY_LABELS["quick"]
 
 GOLD = (math.sqrt(5.0) - 1.0) / 2.0
@@ -232,7 +232,12 @@ def decode_shape(d):
 
 def decode_group(d):
     def leaves(n):
-        return [[c02.shape_params(d), gen.matrix(d), stroke_choice(d)] for _ in range(n)]
+        out = [[c02.shape_params(d), gen.matrix(d), stroke_choice(d)] for _ in range(n)]
+        if d.chance(1, 3):
+            # a member that renders nothing (no box of its own) at a generated position among the others
+            empty = d.choice([["rect", [1.0, 2.0, 0.0, 5.0, 0.0, 0.0]], ["rect", [1.0, 2.0, 4.0, 0.0, 0.0, 0.0]], ["polyline", []], ["circle", [3.0, 4.0, 0.0]], ["ellipse", [3.0, 4.0, 2.0, 0.0]]])
+            out.insert(d.below(len(out) + 1), [empty, gen.matrix(d), stroke_choice(d)])
+        return out
 
     kind = d.choice(["group", "group", "use"])
     if kind == "group":
@@ -557,6 +562,8 @@ def check_group(case):
         n += len(case["nest"])
     if n == 0:
         o.label("group:empty")
+    if any(not list(m.segments()) for m in leaves_of(g)):
+        o.label("group:with-empty-member")
     if case["G"] is not None:
         g *= lib.mk_matrix(case["G"]["m"])
     bad, _ = check_container(o, g, "group")
